@@ -84,6 +84,7 @@ func matchSegs(ps, ss []string) bool {
 // '*', '?', '[..]' within a segment, '{a,b}' alternation, '**' as a whole segment
 // standing for zero or more directories.
 func Match(pattern, rel string) bool {
+	pattern = strings.ReplaceAll(pattern, "[!", "[^") // path.Match only knows ^ for negated classes
 	for _, p := range expandBraces(pattern) {
 		if matchSegs(strings.Split(p, "/"), strings.Split(rel, "/")) {
 			return true
